@@ -39,6 +39,14 @@ THEOREMS = [
     "KrroodVerif.RuleHist.C03_cex_rule_stale_parent",
     # RULE_THEOREMS
 ]
+
+def extra_obligations():
+    """translator tie for the evaluation methods `Eql.eval` transcribes (shared with C01 / C02): the IR regenerated from the
+    current `symbolic.py` is `Eql.IR.irTable` (harness/translate/c01_translate.py)"""
+    from translate import c01_translate as T
+    return T.obligations(PID)
+
+
 MODEL_FUNCTION = ("Dom.run / Dom.step / Dom.qnext (Model/Dom.lean); Eql.evalQuery for isolated results; "
                   "RuleHist.model = RuleHist.run/step/evalG/growStep (Model/RuleHistory.lean) for rule-query histories")
 TRUSTED = [
